@@ -21,6 +21,13 @@ package blobstore
 //@ func (*batchedStoreBlobAccess).flushLocked
 //@   props C09
 //@   ensures a-recorded-failure-stays-recorded: old(ba.flushError) != nil ==> ba.flushError != nil
+// A write that arrives after a batch failed is refused, and the failure stays
+// recorded until the final flush has reported it (it is never consumed by the
+// Put that happens to see it first).
+//@ func (*batchedStoreBlobAccess).Put
+//@   props C09
+//@   ensures a-recorded-failure-stays-recorded-until-the-final-flush: old(ba.flushError) != nil ==> ba.flushError != nil
+//@   ensures a-write-after-a-failed-batch-is-refused: ba.flushError != nil ==> r0 != nil || old(key in ba.pendingPutOperations)
 //@ func NewBatchedStoreBlobAccess$1
 //@   props C09
 //@   ensures the-final-flush-reports-a-recorded-failure: old(ba.flushError) != nil ==> r0 != nil
